@@ -271,11 +271,11 @@ pub fn find<S: Src, const MUT: bool, const OP: u8, const N: usize>(s: &mut S) {
                 i += 1;
             }
             if got.is_none() {
-                check!(s, !any_in, "C12:find returns None only if the view has no entry covered by q");
+                check!(s, !any_in, "C11,C12:find returns None only if the view has no entry covered by q");
             }
             if let Some(g) = got {
                 if entry(&nodes, &r, z) {
-                    check!(s, (g.idx < N && sub[g.idx][z]) == (within[z] && covers(&q, &nodes[z].0)), "C12:find returns a view addressing exactly the entries of the view covered by q");
+                    check!(s, (g.idx < N && sub[g.idx][z]) == (within[z] && covers(&q, &nodes[z].0)), "C11,C12:find returns a view addressing exactly the entries of the view covered by q");
                 }
                 match g.virt {
                     Some(vp) => {
